@@ -491,9 +491,70 @@ func bigBytes(x *Term, n int) []Value {
 	return out
 }
 
+// bvText renders an unsigned bit-vector value in the given base without
+// leaving the bit-vector theory: the digit count is a case split on BV
+// comparisons; digits are nibbles (base 16) or quotient/remainder pairs by
+// constants (axiomatised by divByConst).
+func bvText(fr *frame, bv *Term, base int) StrV {
+	w := bv.S.W
+	bb := big.NewInt(int64(base))
+	limit := new(big.Int).Lsh(one, uint(w))
+	var pows []*big.Int // pows[k] = base^k
+	for pw := big.NewInt(1); pw.Cmp(limit) < 0; pw = new(big.Int).Mul(pw, bb) {
+		pows = append(pows, pw)
+	}
+	max := len(pows)
+	alts := make([]*Term, max)
+	for n := 1; n <= max; n++ {
+		c := TTrue
+		if n > 1 {
+			c = BVUle(BVC(w, pows[n-1]), bv)
+		}
+		if n < max {
+			c = And(c, BVUlt(bv, BVC(w, pows[n])))
+		}
+		alts[n-1] = c
+	}
+	n := fr.p.choose(alts, "text digits") + 1
+	bs := make([]*Term, n)
+	for i := 0; i < n; i++ {
+		k := n - 1 - i // digit weight base^k
+		var d *Term
+		if base == 16 {
+			lo := 4 * k
+			hi := lo + 3
+			if hi >= w {
+				d = ZExt(Extract(w-1, lo, bv), 8)
+			} else {
+				d = ZExt(Extract(hi, lo, bv), 8)
+			}
+			if d.S.W > 8 {
+				d = Extract(7, 0, d)
+			}
+			bs[i] = hexDigit(d)
+			continue
+		}
+		q := bv
+		if k > 0 {
+			q, _ = fr.p.divByConst(bv, BVC(w, pows[k]))
+		}
+		_, r := fr.p.divByConst(q, BVC(w, bb))
+		d = Extract(7, 0, r)
+		if base <= 10 {
+			bs[i] = BVAdd(d, BVU(8, '0'))
+		} else {
+			bs[i] = Ite(BVUlt(d, BVU(8, 10)), BVAdd(d, BVU(8, '0')), BVAdd(d, BVU(8, 'a'-10)))
+		}
+	}
+	return mkStr(bs)
+}
+
 func bigText(fr *frame, x *Term, base int) Value {
 	if x.IsConst() {
 		return StrV{S: x.C.Text(base)}
+	}
+	if x.Op == "bv2nat" && !fr.p.concreteMode {
+		return bvText(fr, x.Args[0], base)
 	}
 	if fr.p.branch(ILt(x, IntI(0))) {
 		return strConcat(StrV{S: "-"}, bigText(fr, INeg(x), base).(StrV))
